@@ -429,6 +429,7 @@ def gen_query(rng, d, forward=None, cap=None, alt=False, limits=True):
              min_waiting_time=rng.choice([0, 60, 180]))
     if prof == "closer" and rng.random() < 0.7:
         q["min_waiting_time"] = d["mw_hint"]
+    cap_disabled_by_caller = cap is not None and cap <= 0      # C03 C05 C08 quantify over requests WITHOUT the cap: never override
     if cap is None:
         cap = rng.choice([0, 0, 0, 120, 300, 900, None])
     if cap is not None:
@@ -439,7 +440,7 @@ def gen_query(rng, d, forward=None, cap=None, alt=False, limits=True):
         if rng.random() < 0.2: q["max_access_travel_time"] = rng.choice([0, 30, 100, 2000])
         if rng.random() < 0.2: q["max_egress_travel_time"] = rng.choice([0, 30, 100, 2000])
         if rng.random() < 0.05: q["min_waiting_time"] = rng.choice([32767, 32768, 65535, -3])
-    if prof == "twoends" and d.get("cap_hints") and forward is not False and rng.random() < 0.4:
+    if prof == "twoends" and d.get("cap_hints") and forward is not False and not cap_disabled_by_caller and rng.random() < 0.4:
         treq, capv, mwv = rng.choice(d["cap_hints"])
         q["time_of_trip"], q["time_type"], q["min_waiting_time"], q["max_first_waiting_time"] = treq, 0, mwv, capv
         for k in ("max_travel_time", "max_access_travel_time", "max_egress_travel_time", "max_transfer_travel_time"): q.pop(k, None)
